@@ -50,6 +50,9 @@ enum Route {
     Token { at: u64, late: bool },
     FailFast(u64),
     Timeout(u64),
+    /// the task that issued the operation polls it once, does something else for a while, fires the token
+    /// itself and then awaits the operation: an operation that completed meanwhile keeps its result
+    SelfCancel(u64),
 }
 
 #[derive(Clone, Debug)]
@@ -65,6 +68,9 @@ struct Victim {
     warmups: usize,
     /// use the previous victim's token (fired by that victim's controller)
     share_token: bool,
+    /// another combinator (`with_personality`) sits between the operation and `with_cancel`: the token still
+    /// has to reach the operation
+    wrapped: bool,
 }
 
 fn gen_prog() -> Vec<Victim> {
@@ -81,12 +87,14 @@ fn gen_prog() -> Vec<Victim> {
         // (a victim with warm-up bytes may leave some of them in its socket: nobody shares that one)
         let share_prev = kind == Kind::UnixRecv && i > 0 && v[i - 1].kind == Kind::UnixRecv && v[i - 1].warmups == 0 && sim::flip("victim.share", 1, 2);
         let t = |k: &'static str| 1 + sim::range(k, 0, 40);
-        let route = match sim::choose("victim.route", 6) {
+        let route = match sim::choose("victim.route", 7) {
             0 => Route::None,
             1 => Route::Drop(t("route.at")),
             2 => Route::Token { at: t("route.at"), late: false },
             3 => Route::Token { at: t("route.at"), late: true },
             4 => Route::FailFast(t("route.at")),
+            5 => Route::Timeout(t("route.at")),
+            _ if !share_prev => Route::SelfCancel(t("route.at")),
             _ => Route::Timeout(t("route.at")),
         };
         // neighbours always get their event (late); cancelled ones mostly never, sometimes around the cancel
@@ -108,7 +116,16 @@ fn gen_prog() -> Vec<Victim> {
         let shared = share_prev || kind == Kind::UnixRecv;
         let data = match route {
             Route::None => Some((60 + sim::range("data.at", 0, 20), 1 + sim::range("data.len", 0, 40) as usize)),
-            _ if !shared && sim::flip("data.race", 1, 4) => Some((t("data.at"), 1 + sim::range("data.len", 0, 40) as usize)),
+            _ if !shared && sim::flip("data.race", 1, 4) => {
+                // around the cancel, now and then at the very instant of it (the operation has completed in the
+                // driver and its future has not been polled yet when the token fires)
+                let cancel_at = match route {
+                    Route::Drop(at) | Route::Token { at, .. } | Route::FailFast(at) | Route::Timeout(at) | Route::SelfCancel(at) => at,
+                    Route::None => 0,
+                };
+                let at = if cancel_at > 0 && sim::flip("data.at.the.cancel", 1, 2) { cancel_at } else { t("data.at") };
+                Some((at, 1 + sim::range("data.len", 0, 40) as usize))
+            }
             _ => None,
         };
         let token_route = matches!(route, Route::Token { late: false, .. } | Route::FailFast(_));
@@ -117,7 +134,8 @@ fn gen_prog() -> Vec<Victim> {
             (Some(Route::Token { at, late: false }), Route::Token { late: false, .. }) if sim::flip("victim.share_token", 1, 2) => (Route::Token { at, late: false }, true),
             _ => (route, false),
         };
-        v.push(Victim { kind, share_prev, route, data, warmups, share_token });
+        let wrapped = sim::flip("victim.wrapped", 1, 4);
+        v.push(Victim { kind, share_prev, route, data, warmups, share_token, wrapped });
     }
     v
 }
@@ -334,6 +352,8 @@ fn cancel() -> RunResult {
                                 },
                             }
                         };
+                        // (personality 0 is "none": the combinator only has to pass on what the waker carries)
+                        let op = async move { if v.wrapped { op.with_personality(0).await } else { op.await } };
                         let outcome = match route {
                             Route::None | Route::Drop(_) => op.await,
                             Route::Token { .. } => op.with_cancel(tok).await,
@@ -345,6 +365,17 @@ fn cancel() -> RunResult {
                                 Ok(o) => o,
                                 Err(_) => Outcome::Elapsed,
                             },
+                            Route::SelfCancel(at) => {
+                                let mut f = Box::pin(op.with_cancel(tok.clone()));
+                                match futures_util::poll!(f.as_mut()) {
+                                    std::task::Poll::Ready(o) => o,
+                                    std::task::Poll::Pending => {
+                                        sleep(Duration::from_micros(at)).await;
+                                        tok.cancel();
+                                        f.await
+                                    }
+                                }
+                            }
                         };
                         if let Outcome::Other(e) = &outcome {
                             errs_v.push("dishonest-result", format!("victim {i} ({kind:?}, {route:?}) finished with an error that is neither a cancellation nor its own result: {e}"));
@@ -408,9 +439,13 @@ fn cancel() -> RunResult {
                 // prompt
                 let cancel_at = match *route {
                     Route::Token { at, late } => Some(when(if late { at + 5 } else { at })),
-                    Route::FailFast(at) | Route::Timeout(at) => Some(when(at)),
+                    Route::FailFast(at) | Route::Timeout(at) | Route::SelfCancel(at) => Some(when(at)),
                     _ => None,
                 };
+                // cancelling after completion is harmless: what had completed before the token fired is delivered
+                if let (Route::SelfCancel(at), Some(t), Outcome::Cancelled) = (route, data_at, &rep.outcome) {
+                    check!(t + SLACK >= when(*at), "completion-turned-into-cancellation", "victim {i} ({:?}): its data arrived {:?} before the task itself fired the token; the operation reported a cancellation (and the data is gone)", v.kind, when(*at).duration_since(t));
+                }
                 match cancel_at {
                     Some(c) => {
                         let genuine = matches!(rep.outcome, Outcome::Data(_) | Outcome::Accepted | Outcome::Ready);
